@@ -3,6 +3,9 @@
   Model: Model/Proto/Req.lean (retry timers constrained by the harness clock).
 -/
 import Model.Proto.ReqLemmas
+import Model.Proto.ReqDead
+import Model.Proto.ReqReady
+import Model.Proto.ReqLive
 namespace Props.C04
 open Model Model.Proto
 
@@ -78,6 +81,56 @@ theorem cancel_drops_request (s : Req.State) (c : Nat) (x : Req.Ctx) (hget : Req
   simp only [Option.map_some, hid, if_true, Option.some.injEq] at hy
   subst hy
   exact ⟨rfl, rfl, rfl⟩
+
+/-! ### over every history -/
+
+/-- "byte-identical": in every reachable state, any two transmissions logged under one request number — the first one
+    and every retry, on whichever pipes, after whatever timers, pipe losses, cancellations and replies — carried the
+    same bytes (ghost log `txlog`: every hand-off of `socket.send` appends (pipe, number, body)) -/
+theorem retransmissions_are_byte_identical (s : Req.State) (hs : Req.Reach s) :
+    ∀ e1 ∈ s.txlog, ∀ e2 ∈ s.txlog, e1.2.1 = e2.2.1 → e1.2.2 = e2.2.2 :=
+  Req.retransmissions_identical s hs
+
+/-- … and they are the bytes the application gave to the Send call that was given that number (ghost log `sent`: every
+    accepted Send appends (number, body); a number is given out once) -/
+theorem transmissions_are_what_was_sent (s : Req.State) (hs : Req.Reach s) :
+    (∀ e ∈ s.txlog, (e.2.1, e.2.2) ∈ s.sent) ∧ (∀ e1 ∈ s.sent, ∀ e2 ∈ s.sent, e1.1 = e2.1 → e1.2 = e2.2) :=
+  Req.transmissions_are_what_was_sent s hs
+
+/-- "once answered, cancelled or closed it is never transmitted again", over every continuation of every history: if no
+    context is still working on request number k in state s (none has k as its current number without a stored reply),
+    then in every state reachable from s the transmissions logged under k are exactly those logged in s -/
+theorem retired_request_is_never_transmitted_again (s : Req.State) (hs : Req.Reach s) (k : Nat) (hnz : k ≠ 0) (hle : k ≤ s.nsent)
+    (hdead : ∀ d x, Req.getCtx s d = some x → x.reqID = k → x.repMsg.isSome = true) :
+    ∀ t, Req.ReachFrom s t → Req.txOf k t = Req.txOf k s :=
+  Req.retired_request_is_never_transmitted_again s hs k hnz hle hdead
+
+/-- the hypothesis of the previous theorem is what cancel establishes (a new Send on the context, a Send or Recv deadline,
+    a lost pipe with retries disabled, closing the context or the socket all go through it): afterwards no context has
+    the cancelled request's number as its current one -/
+theorem cancel_retires_the_request (s : Req.State) (hs : Req.Reach s) (c : Nat) (x : Req.Ctx) (hx : Req.getCtx s c = some x)
+    (hnz : x.reqID ≠ 0) :
+    ∀ d y, Req.getCtx (Req.cancel s c) d = some y → y.reqID = x.reqID → y.repMsg.isSome = true :=
+  Req.cancel_retires s (Req.reach_T s hs) c x hx hnz
+
+/-- "to a ready peer as soon as …", in every reachable state: whenever an operation and the timers around it have been
+    processed, no context is left waiting to transmit while a connected pipe is ready to take a message — the send queue
+    or the ready queue is empty — and every pipe in the ready queue is connected (so a waiting request is handed over the
+    moment a pipe becomes ready, and a ready pipe gets the next request the moment one is queued) -/
+theorem no_request_waits_while_a_pipe_is_ready (s : Req.State) (hs : Req.Reach s) :
+    (s.sendQ = [] ∨ s.readyQ = []) ∧ ∀ p ∈ s.readyQ, (Req.getPipe s p).isSome = true :=
+  Req.no_request_waits_while_a_pipe_is_ready s hs
+
+/-- "survives any sequence of peer failures", in every reachable state: a context that retains a request (transmitted,
+    not yet answered, cancelled or closed) is never stranded — it is waiting in the send queue for a ready pipe
+    (and by `no_request_waits_while_a_pipe_is_ready` no pipe is ready then), or the pipe that last carried the request
+    is still connected, or its retry timer is running for this very request.  Whatever sequence of pipe losses, with
+    retries enabled or disabled, timer firings, late replies, requests on other contexts and closes led here: there is
+    always something that is still carrying the request or will transmit it again -/
+theorem outstanding_request_is_never_stranded (s : Req.State) (hs : Req.Reach s) :
+    ∀ d x, Req.getCtx s d = some x → x.reqMsg.isSome = true →
+      d ∈ s.sendQ ∨ (∃ p, x.lastPipe = some p ∧ (Req.getPipe s p).isSome = true) ∨ (∃ t, x.timer = some t ∧ t.id = x.reqID) :=
+  Req.outstanding_request_is_never_stranded s hs
 
 example : Req.slack = 250 := rfl
 
